@@ -13,7 +13,9 @@ RULE = ('quoting: every string over {a, space, tab, double quote, backslash} up 
         'argument lists of up to 3 of them, plus strings drawn per character from weighted classes (plain, blank, double '
         'quote, backslash runs, cmd metacharacters, other ASCII whitespace, NUL/CR/LF (out of the domain, W tie only), '
         'non-ASCII whitespace / non-whitespace) and a corner-case corpus; non-trivial = contains a blank, quote or '
-        'backslash; distinct by exact text. GUID map: histories of up to 12 runs over a pool of project names (add, keep, '
+        'backslash; distinct by exact text. split vs the C runtime rules on arbitrary lines: every line over the same alphabet up to length 6 (quick) / 8 '
+        '(thorough), realistic flag lines, list2cmdline output damaged at one place, random lines of 7-40 characters weighted '
+        'towards quotes and backslash runs; distinct by exact text. GUID map: histories of up to 12 runs over a pool of project names (add, keep, '
         'remove, re-add, duplicate names, missing / skipped dependencies, default selection, pre-existing and too-new '
         '.bfg_uuid files) driven through the real UuidMap/Solution/Project classes with real files; non-trivial = '
         'history with at least one removal or re-add.')
@@ -413,6 +415,10 @@ def stage_split_vs_crt(rep, rng, n):
               failures_inside_guard=bad, join_images_outside_guard=outside, **stat)
     for k, v in stat.items():
         rep.count('split-vs-crt:' + k, v)
+    if stat['outside-guard-yet-all-readers-agree'] and not bad:
+        rep.fail('%d lines outside split_dom are read alike by windows.split and all variants of the C runtime rules (theorem '
+                 'C20_split_dom_exact says every such line deviates)' % stat['outside-guard-yet-all-readers-agree'],
+                 {'obligation': 'W:split_dom exact on the real code'}, found_input=False)
     if ties and not bad:
         rep.fail('windows.split no longer reads a line as the C runtime reads the line without its final backslash run '
                  '(theorem C20_split_is_crt_stripped, %d lines)' % ties, {'obligation': 'W:split == crt(strip_tbs line)'},
